@@ -148,7 +148,9 @@ IDENTS = ["1", "", "a/b", "x_1", "0001", "A#b", "1,5", ",", "a,b,c", "a&b", "&lt
 
 @st.composite
 def service_cases(draw, tier="quick", http=False):
-    recs = draw(S.record_sets(delimiter=":", min_records=1, max_records=4, max_syn=3, url_shaped=True, unicode_arm=False, allow_empty_prefix=False))
+    # the converter behind the service may use any CURIE delimiter (the service deals in URIs only)
+    delim = draw(st.sampled_from([":", ":", "/", "|", "::", "_"]))
+    recs = draw(S.record_sets(delimiter=delim, min_records=1, max_records=4, max_syn=3, url_shaped=True, unicode_arm=False, allow_empty_prefix=False))
     # some URI-prefix synonyms that are not valid IRI text
     for r in recs:
         if draw(st.integers(0, 3)) == 0:
@@ -190,7 +192,7 @@ def service_cases(draw, tier="quick", http=False):
     preds = draw(st.sampled_from([None, None, [OWL_SAMEAS], [SKOS_EXACT], [OWL_SAMEAS, SKOS_EXACT]]))
     configured = preds or [OWL_SAMEAS]
     qpred = draw(st.sampled_from(configured + configured + [OTHER_PRED]))
-    case = {"records": recs, "uri": uri, "predicates": preds, "query_predicate": qpred, "bound": draw(st.sampled_from(["s", "o"])),
+    case = {"records": recs, "delimiter": delim, "uri": uri, "predicates": preds, "query_predicate": qpred, "bound": draw(st.sampled_from(["s", "o"])),
             # records registered only after the graph / apps were built and had answered once (the service holds its
             # converter by reference and must answer for the converter as it is at query time)
             "late": min(draw(st.sampled_from([0, 0, 1, 2])), len(recs))}
@@ -296,7 +298,7 @@ def check_graph(case, stats: Stats) -> None:
     recs = case["records"]
     late = case.get("late", 0)
     early = recs[: len(recs) - late] if late else recs
-    conv = Converter(mk_records(early))
+    conv = Converter(mk_records(early), delimiter=case.get("delimiter", ":"))
     graph = MappingServiceGraph(converter=conv, predicates=case["predicates"])
     processor = MappingServiceSPARQLProcessor(graph)
     free, shapes = _queries(case["uri"], case["query_predicate"], case["bound"], True)
@@ -387,7 +389,7 @@ def check_http(case, stats: Stats) -> None:
     recs = case["records"]
     late = case.get("late", 0)
     early = recs[: len(recs) - late] if late else recs
-    conv = Converter(mk_records(early))
+    conv = Converter(mk_records(early), delimiter=case.get("delimiter", ":"))
     if case["predicates"] not in (None, [OWL_SAMEAS]):
         case = dict(case, predicates=None, query_predicate=case["query_predicate"] if case["query_predicate"] != SKOS_EXACT else OTHER_PRED)
     free, shapes = _queries(case["uri"], case["query_predicate"], case["bound"], True)
